@@ -98,6 +98,7 @@ const (
 	c08KUnknownHop = "unknownhop"  // next hop is not a channel of Bob
 	c08KExitShort  = "exitshort"   // exit payload asks for more than the htlc carries
 	c08KOverCap    = "overcap"     // more than the outgoing channel can carry
+	c08KNegFee     = "negfee"      // Bob is asked to forward MORE than he receives
 )
 
 type c08Pay struct {
@@ -1180,7 +1181,7 @@ func c08GenSpec(seed int64, idx int, tier string) *c08Spec {
 	}
 	payKinds := []string{c08KValid, c08KValid, c08KValid, c08KValid, c08KValid, c08KOverpay, c08KUnderpay,
 		c08KUnknown, c08KHoldSettle, c08KHoldSettle, c08KHoldCancel, c08KCancelled, c08KBadFee, c08KBigFee,
-		c08KBigFee, c08KBadCltv, c08KLowAmt, c08KUnknownHop, c08KExitShort, c08KOverCap}
+		c08KBigFee, c08KBadCltv, c08KLowAmt, c08KUnknownHop, c08KExitShort, c08KOverCap, c08KNegFee}
 	for i := 0; i < np; i++ {
 		p := &c08Pay{n: i, dir: rng.Intn(2), pid: uint64(i + 1)}
 		p.kind = payKinds[rng.Intn(len(payKinds))]
@@ -1210,6 +1211,12 @@ func c08GenSpec(seed int64, idx int, tier string) *c08Spec {
 			p.amtOut = lnwire.MilliSatoshi(minCap*1000 + int64(rng.Intn(3))*1000 - 3000000)
 		}
 		p.amtIn = p.amtOut + fee
+		if p.kind == c08KNegFee {
+			if p.amtOut < 10000 {
+				p.amtOut += 10000
+			}
+			p.amtIn = p.amtOut - lnwire.MilliSatoshi([]int64{1, 1000, 5000}[rng.Intn(3)])
+		}
 		switch rng.Intn(4) {
 		case 0:
 			p.gap = 0
@@ -1237,9 +1244,9 @@ func TestVerifC08(t *testing.T) {
 		seed = 1
 	}
 	tier := os.Getenv("VERIF_TIER")
-	ncases, workers := 27, 6
+	ncases, workers := 64, 6
 	if tier == "thorough" {
-		ncases, workers = 180, 6
+		ncases, workers = 900, 6
 	}
 	if v, err := strconv.Atoi(os.Getenv("VERIF_C08_CASES")); err == nil && v > 0 {
 		ncases = v
